@@ -47,7 +47,7 @@ import json,sys,os,re,glob
 ID,M,d,caught,W,checks=sys.argv[1:7]
 res={}
 for id in checks.split():
-    log=open(f"{W}/check-{id}.log").read()
+    log=open(f"{W}/check-{id}.log",errors="replace").read()
     sigs=sorted(set(re.findall(r'signature=(\S+)',log)))
     rc=[c for c in caught.split() if c.startswith(id+':')][0].split('rc')[1]
     res[id]={"exit":int(rc),"signatures":sigs[:12]}
